@@ -42,3 +42,36 @@ Example C03_prefix_nonvacuous :
   trel (prefix_transducer (S:=NSR) [0; 1]) 3 [0; 1; 1] [1] = 0%N.
 Proof. vm_compute. split; reflexivity. Qed.
 Print Assumptions C03_prefix_nonvacuous.
+
+(* CFG.derivative(a) (model/Deriv.v: all rules kept; for every rule and every body position k whose
+   preceding symbols are nullable, a rule for the slash symbol, weighted by the null weights U of the
+   skipped prefix).  If f solves G and U X = f X [], then the valuation that gives the slash symbol X/a
+   the weight f X (a :: xs) solves the derivative grammar: its start symbol S/a gives xs exactly the
+   weight G gives a :: xs.  Iterating: two derivatives give f s (a :: b :: xs).  Every semiring. *)
+From GV.model Require Import Deriv.
+From GV.proofs Require FoldProofs DerivProofs.
+Theorem C03_derivative : forall (S : SR) (sl : nat -> nat) (a : nat) (G : grammar S) (f : nat -> list nat -> S) (U : nat -> S),
+  (forall X Y, sl X = sl Y -> X = Y) ->
+  (forall r X, In r G -> rhead r <> sl X) -> (forall r X, In r G -> ~ In (N (sl X)) (rbody r)) ->
+  FoldProofs.solves S G f -> (forall X, U X = f X []) ->
+  FoldProofs.solves S (derivative U sl a G) (deriv_val sl a G f) /\
+  (forall s xs, deriv_val sl a G f (sl s) xs = f s (a :: xs)).
+Proof.
+  intros S sl a G f U Hinj Hh Hb Hf HU. split.
+  - exact (DerivProofs.derivative_solves S sl a G f Hinj Hh Hb Hf U HU).
+  - intros s xs. exact (DerivProofs.derivative_start S sl a G f Hinj Hh Hf s xs).
+Qed.
+Print Assumptions C03_derivative.
+
+Theorem C03_derivative_twice : forall (S : SR) (sl sl2 : nat -> nat) (a b : nat) (G : grammar S)
+    (f : nat -> list nat -> S) (U U2 : nat -> S),
+  (forall X Y, sl X = sl Y -> X = Y) -> (forall X Y, sl2 X = sl2 Y -> X = Y) ->
+  (forall r X, In r G -> rhead r <> sl X) -> (forall r X, In r G -> ~ In (N (sl X)) (rbody r)) ->
+  (forall r X, In r G -> rhead r <> sl2 X) -> (forall r X, In r G -> ~ In (N (sl2 X)) (rbody r)) ->
+  (forall X Y, sl2 X <> sl Y) ->
+  FoldProofs.solves S G f -> (forall X, U X = f X []) -> (forall X, U2 X = deriv_val sl a G f X []) ->
+  let D := derivative U sl a G in
+  let f2 := deriv_val sl2 b D (deriv_val sl a G f) in
+  FoldProofs.solves S (derivative U2 sl2 b D) f2 /\ (forall s xs, f2 (sl2 (sl s)) xs = f s (a :: b :: xs)).
+Proof. intros; apply DerivProofs.derivative2_solves; assumption. Qed.
+Print Assumptions C03_derivative_twice.
